@@ -258,6 +258,159 @@ theorem reorder_then_translate_isolated (mi : Nat) (p : List Nat) (t : V3) (s : 
   rw [hs2]
   exact ⟨a1, by rw [a2, show s1.heap = s.heap from e2]⟩
 
+/-! ### raw data, typed meshes, loaders, rings (round 7) -/
+
+/-- `RawMeshData(mesh)` as written SHARES the container objects of the mesh (nothing is copied); `RawMeshData()` is empty -/
+theorem rawInit_bridge (m : Mesh) : Generated.C06Src.rawInit (some m) = m ∧ Generated.C06Src.rawInit none = Raw.empty := ⟨rfl, rfl⟩
+
+/-- `_instanciate_raw_mesh_data(raw)` as written (no `dim` override): the class is the dimensionality of the data and the typed mesh
+is built around the raw containers themselves — same vector objects, same element rows -/
+theorem instanciateRaw_bridge (raw : Raw) :
+    Generated.C06Src.instanciateRaw raw none = some (Generated.C06Src.rawDim raw, raw) := by
+  unfold Generated.C06Src.instanciateRaw Generated.C06Src.rawDim Generated.C06Src.typedMesh
+  obtain ⟨vs, e, f, c⟩ := raw
+  cases c <;> cases f <;> cases e <;> simp [hasKind]
+
+/-- `load` as written returns a mesh whose vectors are the NEW objects built by the reader -/
+theorem load_bridge (vs : List V3) (e f c : List (List Nat)) (d : Option Int) (raw : Bool) (s : State) :
+    Generated.C06Src.load vs e f c d raw s = newMesh s vs e f c := by
+  unfold Generated.C06Src.load readFile; cases raw <;> rfl
+
+/-- `ring` / `flat_ring` as written store only NEW vector objects (constructor calls, arithmetic results, one explicit copy): over
+any point list the mesh they return has its points in fresh cells -/
+theorem ring_bridge (pts : List V3) (e f : List (List Nat)) (s : State) :
+    Generated.C06Src.ring pts e f s = newMesh s pts e f [] ∧ Generated.C06Src.flatRing pts e f s = newMesh s pts e f [] := by
+  have h1 : (Generated.C06Src.ringVertexSites.all (fun p => p.2 != .alias)) = true := by decide +kernel
+  have h2 : (Generated.C06Src.flatRingVertexSites.all (fun p => p.2 != .alias)) = true := by decide +kernel
+  exact ⟨by unfold Generated.C06Src.ring producerByTable; rw [if_pos h1],
+         by unfold Generated.C06Src.flatRing producerByTable; rw [if_pos h2]⟩
+
+/-! ### a world of meshes: every translated producer at once -/
+
+/-- the mesh appended to the world shares NO vector with any existing mesh (all its references are new cells, pairwise
+distinct) and no existing mesh changes -/
+def FreshMesh (s s' : State) : Prop :=
+  ∃ m', s'.meshes = s.meshes ++ [m'] ∧ (∀ r ∈ m'.verts, s.heap.length ≤ r) ∧ m'.verts.Nodup ∧
+    (∀ m0 ∈ s.meshes, coords s'.heap m0 = coords s.heap m0)
+
+/-- the documented sharing: the appended mesh lists vector objects OF MESH `i` only, and the heap is untouched -/
+def SharesWith (s s' : State) (i : Nat) : Prop :=
+  ∃ m m', s.meshes[i]? = some m ∧ s'.meshes = s.meshes ++ [m'] ∧ s'.heap = s.heap ∧ (∀ r ∈ m'.verts, r ∈ m.verts)
+
+theorem newMesh_fresh (s : State) (vs : List V3) (e f c : List (List Nat)) (hwf : WF s) : FreshMesh s (newMesh s vs e f c) := by
+  obtain ⟨m', h1, _, _, _, _, h6, _, h8⟩ := newMesh_spec s vs e f c hwf
+  refine ⟨m', h1, ?_, ?_, h8⟩
+  · intro r hr; rw [h6] at hr; exact (mem_range'_iff.1 hr).1
+  · rw [h6]; exact List.nodup_range'
+
+/-- the producers translated from the working tree -/
+inductive Producer where
+  | copy (i : Nat)
+  | merge (ids : List Nat)
+  | fromArrays (V : ArrV) (E F C : Option ArrI) (raw : Bool)
+  | load (vs : List V3) (e f c : List (List Nat)) (dim : Option Int) (raw : Bool)
+  | ring (pts : List V3) (e f : List (List Nat))
+  | flatRing (pts : List V3) (e f : List (List Nat))
+  | reorder (i : Nat) (p : List Nat)
+  | rewrap (i : Nat)
+
+/-- one producer call on a world of meshes, by the TRANSLATED definitions (`none`: the call raises / its precondition fails) -/
+def runProducer (s : State) : Producer → Option State
+  | .copy i =>
+    match s.meshes[i]? with
+    | none => none
+    | some _ => some (Generated.C06Src.copy i false false
+        { st := s, extras := List.replicate s.meshes.length { attr := none, conn := 0 }, conns := [] }).st
+  | .merge ids =>
+    match lookupAll s.meshes ids with
+    | none => none
+    | some ms =>
+      let acc := Generated.C06Src.mergeRun (coords s.heap) ms
+      some (newMesh s acc.verts acc.edges acc.faces acc.cells)
+  | .fromArrays V E F C raw => Generated.C06Src.fromArrays V E F C raw s
+  | .load vs e f c d raw => some (Generated.C06Src.load vs e f c d raw s)
+  | .ring pts e f => some (Generated.C06Src.ring pts e f s)
+  | .flatRing pts e f => some (Generated.C06Src.flatRing pts e f s)
+  | .reorder i p =>
+    match s.meshes[i]? with
+    | none => none
+    | some m => if p.length = m.verts.length ∧ (∀ x ∈ p, x < m.verts.length) then some (Generated.C06Src.reorderVertices i p s) else none
+  | .rewrap i =>
+    match s.meshes[i]? with
+    | none => none
+    | some m =>
+      match Generated.C06Src.instanciateRaw (Generated.C06Src.rawInit (some m)) none with
+      | some (_, m') => some { s with meshes := s.meshes ++ [m'] }
+      | none => none
+
+/-- **alias-freedom of every translated producer at once**: in any well-formed world, a call that returns appends ONE mesh which
+shares no vector with any existing mesh (copy, merge, from_arrays, load, ring, flat_ring) — or shares exactly the vectors of its
+input mesh and nothing else (reorder_vertices, re-wrapping a mesh in `RawMeshData`), the documented sharing -/
+def Expected (s s' : State) : Producer → Prop
+  | .reorder i _ => SharesWith s s' i
+  | .rewrap i => SharesWith s s' i
+  | _ => FreshMesh s s'
+
+theorem producers_world (s s' : State) (hwf : WF s) (p : Producer) (h : runProducer s p = some s') : Expected s s' p := by
+  cases p with
+  | copy i =>
+    simp only [runProducer] at h
+    cases hm : s.meshes[i]? with
+    | none => rw [hm] at h; cases h
+    | some m =>
+      rw [hm] at h
+      simp only [copy_bridge, Option.some.injEq] at h
+      obtain ⟨hi, hmi⟩ := List.getElem?_eq_some_iff.1 hm
+      subst hmi
+      have : (copyX { st := s, extras := List.replicate s.meshes.length { attr := none, conn := 0 }, conns := [] } i false).st
+          = newMesh s (coords s.heap s.meshes[i]) s.meshes[i].edges s.meshes[i].faces s.meshes[i].cells := by
+        simp [copyX, hm, hi, pushPlain, copyMesh]
+      rw [this] at h
+      subst h; exact newMesh_fresh s _ _ _ _ hwf
+  | merge ids =>
+    simp only [runProducer] at h
+    cases hl : lookupAll s.meshes ids with
+    | none => rw [hl] at h; cases h
+    | some ms =>
+      rw [hl] at h
+      simp only [Option.some.injEq] at h
+      subst h; exact newMesh_fresh s _ _ _ _ hwf
+  | fromArrays V E F C raw =>
+    simp only [runProducer, fromArrays_bridge] at h
+    by_cases hok : faOk V E F C = true
+    · rw [if_pos hok] at h; injection h with h; subst h; exact newMesh_fresh s _ _ _ _ hwf
+    · rw [if_neg hok] at h; cases h
+  | load vs e f c d raw =>
+    simp only [runProducer, load_bridge, Option.some.injEq] at h
+    subst h; exact newMesh_fresh s _ _ _ _ hwf
+  | ring pts e f =>
+    simp only [runProducer, (ring_bridge pts e f s).1, Option.some.injEq] at h
+    subst h; exact newMesh_fresh s _ _ _ _ hwf
+  | flatRing pts e f =>
+    simp only [runProducer, (ring_bridge pts e f s).2, Option.some.injEq] at h
+    subst h; exact newMesh_fresh s _ _ _ _ hwf
+  | reorder i p =>
+    simp only [runProducer] at h
+    cases hm : s.meshes[i]? with
+    | none => rw [hm] at h; cases h
+    | some m =>
+      rw [hm] at h
+      simp only at h
+      by_cases hp : p.length = m.verts.length ∧ (∀ x ∈ p, x < m.verts.length)
+      · rw [if_pos hp] at h
+        injection h with h
+        obtain ⟨m', e1, e2, _, e4, _⟩ := reorder_spec i p s m hm hp.1 hp.2
+        subst h; exact ⟨m, m', hm, e1, e2, e4⟩
+      · rw [if_neg hp] at h; cases h
+  | rewrap i =>
+    simp only [runProducer] at h
+    cases hm : s.meshes[i]? with
+    | none => rw [hm] at h; cases h
+    | some m =>
+      rw [hm] at h
+      simp only [(rawInit_bridge m).1, instanciateRaw_bridge, Option.some.injEq] at h
+      subst h; exact ⟨m, m, hm, rfl, rfl, fun r hr => hr⟩
+
 /-! ### the headline theorems, about the translated definitions -/
 
 /-- `translate(t)` then `translate(-t)`, both as written in the source, restore every coordinate of the mesh -/
